@@ -184,12 +184,34 @@ func c12Alphabet(tier string) []vEvent {
 	return out
 }
 
+// c12ByteAlphabet: first bytes that sort before '.' and before '/', and names that are not valid UTF-8 (legal file
+// names), next to an ordinary name and a genuine escape.
+func c12ByteAlphabet(tier string) []vEvent {
+	var out []vEvent
+	for _, p := range []string{"..", "a", "-a", "-a/b", "+", "+/x", "a/-b", "a/-b/c", "caf\xe9", "caf\xe9/x", "a/\xff", "\xc3"} {
+		for k := 0; k < 5; k++ {
+			out = append(out, vEvent{Kind: k, Path: p})
+		}
+	}
+	return out
+}
+
+// c12PrefixAlphabet: entries below a directory that was never sent and whose name extends (as a string) the name
+// of a directory that was.
+func c12PrefixAlphabet(tier string) []vEvent {
+	var out []vEvent
+	for _, p := range []string{"a", "ab", "ab/c", "a/b", "a/bc", "a/bc/d", "a.2/x", "b"} {
+		for k := 0; k < 5; k++ {
+			out = append(out, vEvent{Kind: k, Path: p})
+		}
+	}
+	return out
+}
+
 // c12DotAlphabet: names that begin with dots without being "." or ".." (volume layouts such as ..data/), at the
 // first level and below a directory, next to the genuine escapes.
 func c12DotAlphabet(tier string) []vEvent {
-	paths := []string{"..", "../a", "..a", "..a/b", "..a/..", "..a/..b", "...", ".../a", ".a", ".a/b", "a", "a/..b", "a/..b/c", "a/...", "a/.b",
-		// first bytes that sort before '.' and before '/'
-		"-a", "-a/b", "+", "+/x", "a/-b", "a/-b/c"}
+	paths := []string{"..", "../a", "..a", "..a/b", "..a/..", "..a/..b", "...", ".../a", ".a", ".a/b", "a", "a/..b", "a/..b/c", "a/...", "a/.b"}
 	var out []vEvent
 	for _, p := range paths {
 		for k := 0; k < 5; k++ {
@@ -314,7 +336,7 @@ func runC12(r *evid.Run) {
 	r.Sample(map[string]any{"order_pair": []string{"a-b", "a/b"}, "real": fsutil.ComparePath("a-b", "a/b"), "spec": fsmodel.ComparePaths("a-b", "a/b")})
 
 	// ---- part 2: validator, product BFS to closure ----
-	for pass, events := range [][]vEvent{c12Alphabet(r.Tier), c12DeepAlphabet(r.Tier), c12DotAlphabet(r.Tier)} {
+	for pass, events := range [][]vEvent{c12Alphabet(r.Tier), c12DeepAlphabet(r.Tier), c12DotAlphabet(r.Tier), c12PrefixAlphabet(r.Tier), c12ByteAlphabet(r.Tier)} {
 		type item struct{ hist []vEvent }
 		seen := map[string]bool{}
 		frontier := []item{{}}
